@@ -170,7 +170,13 @@ def work(p):
             f.params = [gm.Param("item", "normal", vals=["Own()"]), gm.Param("inner", "normal", default="None", vals=["Own.Inner()", "None"])]
             f.ret_vals = ["Own()"]
             owns.append(f)
-        extra = [fam, tdf, tup, abcf] + dds + [hist, yf, cfgf] + owns
+        # records whose merged key set overflows the limit: the fallback Dict[str, ...] must carry every value type, also those seen
+        # only under keys that were optional in an earlier (per-call) merge
+        ovf = gm.FuncSpec(69, "ovf_family", [], "module", "plain")
+        ovf.params = [gm.Param("rows", "normal", vals=["[{'q': 1}, {'r': 2.5}]", "[{'r': 'x', 's': 1}]", "[{'t': None, 'u': b'x'}]", "[{'q': 1, 'v': A()}]",
+                                                         "[{'q': 1, 'w': (1,)}, {'q': 2}]"])]
+        ovf.ret_vals = ["[{'ra': 1}, {'rb': 2.5}]", "[{'rc': 'x', 'rd': 1}, {'re': None}]", "[{'rf': b'x'}]"]
+        extra = [fam, tdf, tup, abcf] + dds + [hist, yf, cfgf] + owns + [ovf]
         nfixed = len(extra)
         if spec.get("collide"):
             # pinned witness of the listed finding: two functions share a parameter name and get differently shaped dicts
@@ -194,6 +200,7 @@ def work(p):
         plan += [(f, [f.params[0].vals[0]], {}) for f in extra[nfixed:]] + [(yf, ["1"], {})] * 3
         plan += [(cfgf, [v, w], {}) for v, w in zip(cfgf.params[0].vals, cfgf.params[1].vals)]
         plan += [(f, ["Own()", w], {}) for f in owns for w in ("Own.Inner()", "None")]
+        plan += [(ovf, [v], {}) for v in ovf.params[0].vals]
         traces = modrun.trace_plan(tmod, path, m, plan, k)
         from monkeytype.tracing import CallTrace
 
